@@ -167,7 +167,17 @@ pub fn rand_val(rng: &mut Rng, ty: TagDataType, big: bool, noncanon: bool) -> (V
     match ty {
         TagDataType::Master => (Val::M, 0),
         TagDataType::UnsignedInt => { let v = lattice_u64(rng); (Val::U(v), if noncanon && rng.chance(1, 4) { if v == 0 && rng.chance(1, 2) { 255 } else { rng.range(1, 3) } } else { 0 }) }
-        TagDataType::Integer => { let v = lattice_u64(rng) as i64; let v = if rng.chance(1, 2) { v.wrapping_neg() } else { v }; (Val::I(v), if noncanon && rng.chance(1, 4) { if v == 0 && rng.chance(1, 2) { 255 } else { rng.range(1, 3) } } else { 0 }) }
+        TagDataType::Integer => {
+            let v = if rng.chance(1, 4) {
+                // payloads whose leading byte sits on the sign boundary (0x80, 0x7f, 0xff 0x7f.., 0x00 0x80..), every length 1..8
+                let k = rng.range(1, 8);
+                let mut bytes = rng.bytes(k);
+                bytes[0] = *rng.pick(&[0x80u8, 0x80, 0x7f, 0xff, 0x00, 0x81]);
+                if k > 1 && rng.chance(1, 3) { bytes[1] = *rng.pick(&[0x80u8, 0x7f, 0x00, 0xff]); }
+                let mut x: i64 = if bytes[0] & 0x80 != 0 { -1 } else { 0 };
+                for b in &bytes { x = (x << 8) | *b as i64; }
+                x
+            } else { let v = lattice_u64(rng) as i64; if rng.chance(1, 2) { v.wrapping_neg() } else { v } }; (Val::I(v), if noncanon && rng.chance(1, 4) { if v == 0 && rng.chance(1, 2) { 255 } else { rng.range(1, 3) } } else { 0 }) }
         TagDataType::Float => if noncanon && rng.chance(1, 3) { (Val::F4(f32::from_bits(match rng.below(6) { 0 => 0, 1 => 0x8000_0000, 2 => 1, 3 => 0x7f80_0000, 4 => 0x3f80_0000, _ => { let x = rng.next_u64() as u32; if (x >> 23) & 0xff == 0xff { x & 0xff80_0000 } else { x } } })), 0) } else { let f = lattice_f64(rng); (Val::F(if f.is_nan() { f64::NAN } else { f }), 0) },
         TagDataType::Utf8 => {
             if rng.chance(1, 3) {
